@@ -1,10 +1,164 @@
 /-
   Driver/MainC11.lean — line-protocol driver of C11 (one line in, one line out).
-  STUB: to be filled by the C11 work package (see /verif/BUILDING.md).
+
+  input lines (written by go/cmd/harness/c11.go):
+    `c11 <id> <kind> <ref> x<hex>`   program text, hex-encoded → the model's `parse`, rendered like the Go side
+    `asm <id> x<hex>`                canonical text → `asm-agree` iff Model.Parser + Model.ofGen = Spec.Asm
+    `tab`                            the model's tables of space encodings and of ToLower-to-ASCII code points
+  anything else → `bad-op`.
 -/
 import MajoranaVerif.Driver.Util
+import MajoranaVerif.Model.Parser
+import MajoranaVerif.Model.Roles
+import MajoranaVerif.Spec.Asm
+open GoInt Model.Parser
 
-def handleC11 (line : String) : String := "todo " ++ line
+namespace Driver.C11
+
+def hexVal (c : Char) : Option Nat :=
+  if '0' ≤ c ∧ c ≤ '9' then some (c.toNat - 48)
+  else if 'a' ≤ c ∧ c ≤ 'f' then some (c.toNat - 87)
+  else none
+
+def unhexGo : List Char → List UInt8 → Option (List UInt8)
+  | [], acc => some acc.reverse
+  | [_], _ => none
+  | a :: b :: r, acc =>
+    match hexVal a, hexVal b with
+    | some x, some y => unhexGo r ((x * 16 + y).toUInt8 :: acc)
+    | _, _ => none
+
+/-- `x<hex>` → bytes -/
+def unhex (s : String) : Option (List UInt8) :=
+  match s.toList with
+  | 'x' :: r => unhexGo r []
+  | _ => none
+
+def hexDigit (n : Nat) : Char := if n < 10 then Char.ofNat (48 + n) else Char.ofNat (87 + n)
+
+def hex (bs : List UInt8) : String :=
+  String.ofList ('x' :: bs.flatMap fun b => [hexDigit (b.toNat / 16), hexDigit (b.toNat % 16)])
+
+def showLabel (s : String) : String := hex (unlatin1 s)
+
+/-- fields sorted by Go field name, `forward` omitted; strings hex-encoded -/
+def showInstr : Gen.Instr → String
+  | .add_ o => s!"add rd={o.rd} rs1={o.rs1} rs2={o.rs2}"
+  | .addi_ o => s!"addi imm={showI32 o.imm} rd={o.rd} rs={o.rs}"
+  | .and_ o => s!"and rd={o.rd} rs1={o.rs1} rs2={o.rs2}"
+  | .andi_ o => s!"andi imm={showI32 o.imm} rd={o.rd} rs={o.rs}"
+  | .auipc_ o => s!"auipc imm={showI32 o.imm} rd={o.rd}"
+  | .beq_ o => s!"beq label={showLabel o.label} rs1={o.rs1} rs2={o.rs2}"
+  | .beqz_ o => s!"beqz label={showLabel o.label} rs={o.rs}"
+  | .bge_ o => s!"bge label={showLabel o.label} rs1={o.rs1} rs2={o.rs2}"
+  | .bgeu_ o => s!"bgeu label={showLabel o.label} rs1={o.rs1} rs2={o.rs2}"
+  | .ble_ o => s!"ble label={showLabel o.label} rs1={o.rs1} rs2={o.rs2}"
+  | .blt_ o => s!"blt label={showLabel o.label} rs1={o.rs1} rs2={o.rs2}"
+  | .bltu_ o => s!"bltu label={showLabel o.label} rs1={o.rs1} rs2={o.rs2}"
+  | .bne_ o => s!"bne label={showLabel o.label} rs1={o.rs1} rs2={o.rs2}"
+  | .bnez_ o => s!"bnez label={showLabel o.label} rs={o.rs}"
+  | .div_ o => s!"div rd={o.rd} rs1={o.rs1} rs2={o.rs2}"
+  | .j_ o => s!"j label={showLabel o.label}"
+  | .jal_ o => s!"jal label={showLabel o.label} rd={o.rd}"
+  | .jalr_ o => s!"jalr imm={showI32 o.imm} rd={o.rd} rs={o.rs}"
+  | .lui_ o => s!"lui imm={showI32 o.imm} rd={o.rd}"
+  | .lb_ o => s!"lb offset={showI32 o.offset} rd={o.rd} rs={o.rs}"
+  | .lh_ o => s!"lh offset={showI32 o.offset} rd={o.rd} rs={o.rs}"
+  | .li_ o => s!"li imm={showI32 o.imm} rd={o.rd}"
+  | .lw_ o => s!"lw offset={showI32 o.offset} rd={o.rd} rs={o.rs}"
+  | .nop_ _ => "nop"
+  | .mul_ o => s!"mul rd={o.rd} rs1={o.rs1} rs2={o.rs2}"
+  | .mv_ o => s!"mv rd={o.rd} rs={o.rs}"
+  | .or_ o => s!"or rd={o.rd} rs1={o.rs1} rs2={o.rs2}"
+  | .ori_ o => s!"ori imm={showI32 o.imm} rd={o.rd} rs={o.rs}"
+  | .rem_ o => s!"rem rd={o.rd} rs1={o.rs1} rs2={o.rs2}"
+  | .ret_ _ => "ret"
+  | .sb_ o => s!"sb offset={showI32 o.offset} rd={o.rd} rs={o.rs}"
+  | .sh_ o => s!"sh offset={showI32 o.offset} rd={o.rd} rs={o.rs}"
+  | .sll_ o => s!"sll rd={o.rd} rs1={o.rs1} rs2={o.rs2}"
+  | .slli_ o => s!"slli imm={showI32 o.imm} rd={o.rd} rs={o.rs}"
+  | .slt_ o => s!"slt rd={o.rd} rs1={o.rs1} rs2={o.rs2}"
+  | .sltu_ o => s!"sltu rd={o.rd} rs1={o.rs1} rs2={o.rs2}"
+  | .slti_ o => s!"slti imm={showI32 o.imm} rd={o.rd} rs={o.rs}"
+  | .sra_ o => s!"sra rd={o.rd} rs1={o.rs1} rs2={o.rs2}"
+  | .srai_ o => s!"srai imm={showI32 o.imm} rd={o.rd} rs={o.rs}"
+  | .srl_ o => s!"srl rd={o.rd} rs1={o.rs1} rs2={o.rs2}"
+  | .srli_ o => s!"srli imm={showI32 o.imm} rd={o.rd} rs={o.rs}"
+  | .sub_ o => s!"sub rd={o.rd} rs1={o.rs1} rs2={o.rs2}"
+  | .sw_ o => s!"sw offset={showI32 o.offset} rd={o.rd} rs={o.rs}"
+  | .xor_ o => s!"xor rd={o.rd} rs1={o.rs1} rs2={o.rs2}"
+  | .xori_ o => s!"xori imm={showI32 o.imm} rd={o.rd} rs={o.rs}"
+
+def showApp (a : App) : String :=
+  let labs := a.labels.entries.mergeSort (fun x y => !(y.1 < x.1))
+  s!"ok n={a.instrs.length} instrs=[{";".intercalate (a.instrs.map showInstr)}] labels=[{",".intercalate (labs.map fun (k, v) => s!"{showLabel k}:{showI32 v}")}]"
+
+def showParse (r : Except ParseErr App) : String :=
+  match r with
+  | .ok a => showApp a
+  | .error (.err k) => "err " ++ k
+  | .error (.panic _) => "panic"
+
+/-! ### agreement with the trusted reference assembler on canonical text -/
+
+def asmCheck (bs : List UInt8) : String :=
+  match String.fromUTF8? (ByteArray.mk bs.toArray) with
+  | none => "asm-skip not-utf8"
+  | some text =>
+    match parse bs, Spec.Asm.program text with
+    | .ok a, some p =>
+      if a.instrs.map Model.ofGen != p.instrs.toList then "asm-DIFF instrs"
+      else
+        -- every label either side knows resolves to the same address
+        let keys := (a.labels.keys ++ p.labels.map (·.1)).eraseDups
+        if keys.all (fun k => a.labels.find? k == p.label k) then "asm-agree" else "asm-DIFF labels"
+    | .error (.err _), none => "asm-agree"
+    | .ok _, none => "asm-DIFF model-accepts spec-rejects"
+    | .error (.err _), some _ => "asm-DIFF model-rejects spec-accepts"
+    | .error (.panic _), _ => "asm-DIFF model-panics"
+
+/-! ### the tables, recomputed from the model's byte predicates by a sweep over all code points -/
+
+def utf8 (c : Nat) : List UInt8 :=
+  if c < 0x80 then [c.toUInt8]
+  else if c < 0x800 then [(0xC0 + c / 64).toUInt8, (0x80 + c % 64).toUInt8]
+  else if c < 0x10000 then [(0xE0 + c / 4096).toUInt8, (0x80 + c / 64 % 64).toUInt8, (0x80 + c % 64).toUInt8]
+  else [(0xF0 + c / 262144).toUInt8, (0x80 + c / 4096 % 64).toUInt8, (0x80 + c / 64 % 64).toUInt8, (0x80 + c % 64).toUInt8]
+
+def isSurrogate (c : Nat) : Bool := 0xD800 ≤ c && c < 0xE000
+
+def tables : String := Id.run do
+  let mut spaces : Array Nat := #[]
+  let mut lowers : Array String := #[]
+  for c in [0:0x110000] do
+    if isSurrogate c then continue
+    let e := utf8 c
+    -- a space both for the forward and for the backward scan, also next to other bytes
+    let l := trimLeft (e ++ [0x41]) == [0x41]
+    let r := trimRight (0x41 :: e) == [0x41]
+    if l != r then spaces := spaces.push 99999999
+    if l then spaces := spaces.push c
+    match toLower e with
+    | [b] => if b < 0x80 && b.toNat != c then lowers := lowers.push s!"{c}:{b.toNat}"
+    | _ => pure ()
+  return s!"tab spaces={",".intercalate (spaces.toList.map toString)} lower={",".intercalate lowers.toList}"
+
+def handle (line : String) : String :=
+  match words line with
+  | ["c11", _, _, _, h] =>
+    match unhex h with
+    | some bs => showParse (parse bs)
+    | none => "bad-op"
+  | ["asm", _, h] =>
+    match unhex h with
+    | some bs => asmCheck bs
+    | none => "bad-op"
+  | ["tab"] => tables
+  | _ => "bad-op"
+
+end Driver.C11
+
+def handleC11 (line : String) : String := Driver.C11.handle line
 
 partial def loopC11 (h : IO.FS.Stream) (out : IO.FS.Stream) : IO Unit := do
   let line ← h.getLine
